@@ -15,7 +15,7 @@
 From Coq Require Import String NArith ZArith QArith Bool Arith List Permutation.
 From GT Require Import Base.UTree Spec.Obs Spec.CompareSpec Spec.Unrooted Model.Reroot Model.Index Model.EdgeIndex Model.Compare
      Proofs.IndexSplit Proofs.CompareBase Proofs.CompareTree Proofs.CompareMain Proofs.CompareCor
-     Proofs.CompareDomain Proofs.CompareDupfree Proofs.CompareWeighted Proofs.CompareAll Proofs.CompareIdent Proofs.CompareBridge Proofs.CompareCommon.
+     Proofs.CompareDomain Proofs.CompareDupfree Proofs.CompareWeighted Proofs.CompareAll Proofs.CompareIdent Proofs.CompareBridge Proofs.CompareCommon Proofs.CompareTotal.
 Import ListNotations.
 Local Close Scope Q_scope.
 
@@ -220,3 +220,22 @@ Theorem C08_common_edges_counts :
     Ok (Z.of_nat (c_only1 (spec_counts te t1 t2)), Z.of_nat (c_both (spec_counts te t1 t2))).
 Proof. exact common_edges_counts. Qed.
 Print Assumptions C08_common_edges_counts.
+
+(** * totality: with the 0.75 load policy the capacity of the hash index stays below
+    max(initial capacity, 3 * number of entries), so the hash-index model never reaches the
+    out-of-array panic for trees of fewer than 2^58 branches ([small_tree]); the hash-index
+    instances then EQUAL the association-list instances, and every theorem above is a statement
+    about the model that mirrors the real index *)
+Theorem C08_compare_hm_eq :
+  forall tips ident t1 t2,
+    good t1 -> good t2 -> Permutation (leaves t1) (leaves t2) -> small_tree t1 ->
+    compare_hm tips ident t1 t2 = compare tips ident t1 t2.
+Proof. exact compare_hm_eq. Qed.
+Print Assumptions C08_compare_hm_eq.
+
+Theorem C08_compare_weighted_hm_eq :
+  forall tips ident t1 t2,
+    good t1 -> good t2 -> Permutation (leaves t1) (leaves t2) -> small_tree t1 -> small_tree t2 ->
+    compare_weighted_hm tips ident t1 t2 = compare_weighted tips ident t1 t2.
+Proof. exact compare_weighted_hm_eq. Qed.
+Print Assumptions C08_compare_weighted_hm_eq.
